@@ -146,7 +146,7 @@ def gen_items(rng, sc, traits, sec, depth, p_opt, skip=(), with_data=True, data_
     return items
 
 
-def gen_message(rng, sc, p_opt=None, msgtype=None, data_tags=None, with_data=True, group_data=False, trailer_sig=False):
+def gen_message(rng, sc, p_opt=None, msgtype=None, data_tags=None, with_data=True, group_data=False, trailer_sig=False, trailer_plain=0.0):
     mt, traits = rng.choice(sc['msgs']) if msgtype is None else [m for m in sc['msgs'] if m[0] == msgtype][0]
     p_opt = rng.choice((0.0, 0.15, 0.5, 0.9, 1.0)) if p_opt is None else p_opt
     h = gen_items(rng, sc, sc['header'], 'h', 0, p_opt * 0.6, with_data=with_data, data_tags=data_tags)
@@ -155,6 +155,9 @@ def gen_message(rng, sc, p_opt=None, msgtype=None, data_tags=None, with_data=Tru
     if trailer_sig:
         d = gen_data(rng)
         t = [Item('t', 93, str(len(d)).encode()), Item('t', 89, d)]
+    elif trailer_plain and rng.random() < trailer_plain:
+        d = bytes(rng.choice(PRINTABLE) for _ in range(rng.choice((1, 4, 17))))      # a Signature without SOH/NUL decodes with the plain tokeniser
+        t = [Item('t', 93, str(len(d)).encode()), Item('t', 89, d)] if rng.random() < 0.7 else [Item('t', 89, d)]
     return mt, h + b + t
 
 
